@@ -204,6 +204,28 @@ theorem frontEnd_bytes_request_placed (d : Defaults) {cpu mem : Nat} {sto : Opti
     obtain ⟨p, hp, hn, hm, -, hfit, -⟩ := fits_worker price locs pools j cloud _ _ hsel
     exact ⟨h1, h2, h3, p, hp, hn, hm, hfit⟩
 
+/-- **However the storage was spelled.**  A job that names its storage with the deprecated `pvc_size` key (with no
+`resources` key, an empty one, or other resource keys) is provisioned like the same job with `resources.storage`:
+if it is placed, the granted storage, cpu and memory are at least the request. -/
+theorem legacy_storage_spelling_is_honoured (d : Defaults) {cpu mem pvc : Nat} {lab : Option String}
+    {pr : Option Bool} {g : Granted}
+    (h : frontEndJob price locs pools j d cloud (some pvc) ⟨none, lab, pr, some cpu, some (.bytes mem), none⟩ = .placed g) :
+    pvc ≤ g.storageGiB * 1024 ^ 3 ∧ cpu ≤ g.coresMcpu ∧ mem ≤ g.memBytes := by
+  simp only [frontEndJob, withPvcSize, Option.isSome_none, Bool.false_eq_true, if_false] at h
+  obtain ⟨h1, h2, h3, -⟩ := frontEnd_bytes_request_placed price locs pools j cloud d h
+  exact ⟨by simpa using h3, h1, h2⟩
+
+/-- the legacy key is the same request as the modern one, for every request without a modern storage key … -/
+theorem pvc_size_is_storage (d : Defaults) (pvc : Nat) (r : Request) (hr : r.storageBytes = none) :
+    frontEndJob price locs pools j d cloud (some pvc) r =
+      frontEndJob price locs pools j d cloud none { r with storageBytes := some pvc } := by
+  simp [frontEndJob, withPvcSize, hr]
+
+/-- … and both spellings at once are rejected as malformed -/
+theorem pvc_size_and_storage_rejected (d : Defaults) (pvc s : Nat) (r : Request) (hr : r.storageBytes = some s) :
+    frontEndJob price locs pools j d cloud (some pvc) r = .invalid := by
+  simp [frontEndJob, withPvcSize, hr]
+
 /-! ### internal errors
 
 A request accepted by the job schema never ends in an internal error: it is placed or rejected.
